@@ -147,6 +147,7 @@ type Exec struct {
 	maxDepth   int
 	depthBase  int
 	alog       *accessLog
+	syncMaps   map[*value]map[syncMapKey][2]value
 	fileReader value
 	fileClosed int
 	races      []string
